@@ -145,7 +145,8 @@ def _resume_runs(env: Env, out: Outcome, n: int, extra: list[dict]) -> None:
             out.violations.append(v)
         # a waiter whose timeout had fired before the snapshot must still raise after resume
         for nm, w in waiting:
-            if w.timed_out and w.resolved_event is None:
+            already = any(r[0] == "wait_timeout" and r[1] == nm and r[5]["wid"] == w.waiter_id for r in tr1.steps)
+            if w.timed_out and w.resolved_event is None and not already:
                 raised = any(r[0] == "wait_timeout" and r[1] == nm and r[5]["wid"] == w.waiter_id for r in tr2.steps)
                 wuid = getattr(w.event, "uid", None)
                 replayed_to_end = any(r[0] == "exit" and r[1] == nm and r[2] == wuid and r[5].get("status") == "ok" for r in tr2.steps)
